@@ -33,11 +33,12 @@ BRANCHES = {
     'take1': [['take', 1]],
     'scan': [['scan', 'add', '0']],
     'roll': [['roll', 2, 1, [['sum', True]]]],
+    'none': [['map', 'none_if_odd']],          # emits None as a VALUE (zip/combine_latest must not take it for 'nothing yet')
 }
-QUICK_SET = ['id', 'flt', 'cnt', 'last', 'take1']
+QUICK_SET = ['id', 'flt', 'cnt', 'last', 'take1', 'none']
 MULTI = [('id', 'flt', 'cnt'), ('flt', 'last', 'scan'), ('take1', 'cnt', 'dup'), ('flt', 'flt', 'id'), ('last', 'cnt', 'take1'),
          ('roll', 'flt', 'last'), ('id', 'flt', 'cnt', 'last'), ('flt', 'take1', 'scan', 'cnt'), ('dup', 'flt', 'last', 'id'),
-         ('cnt', 'cnt', 'cnt'), ('flt', 'id', 'flt', 'id'), ('scan', 'roll', 'flt')]
+         ('cnt', 'cnt', 'cnt'), ('flt', 'id', 'flt', 'id'), ('scan', 'roll', 'flt'), ('none', 'flt', 'id'), ('cnt', 'none', 'none')]
 JOINS = ['merge', 'zip', 'combine_latest']
 
 
@@ -91,7 +92,7 @@ def cases(unit):
             if i % n == sh:
                 yield {'fam': 'plain', 'tier': unit['tier'], 'seq': seq}
     else:
-        pairs = [('id', 'flt'), ('flt', 'cnt'), ('last', 'take1'), ('cnt', 'flt'), ('flt', 'last'), ('dup', 'flt'), ('scan', 'cnt')]
+        pairs = [('id', 'flt'), ('flt', 'cnt'), ('last', 'take1'), ('cnt', 'flt'), ('flt', 'last'), ('dup', 'flt'), ('scan', 'cnt'), ('none', 'flt')]
         for (a, b) in pairs:
             for seq in spaces.sequences([0, 1, 2], unit['L']):
                 yield {'fam': 'nested', 'parent': unit['parent'], 'join': unit['join'], 'branches': [a, b], 'seq': seq}
